@@ -117,6 +117,9 @@ def frame_motions(seed):
     # constant first derivative given as a non-callable (allowed by check_time_derivatives)
     v0 = np.array([0.3, -1.0, 2.0])
     M["uniform_translation_const_rt"] = dict(r=lambda t: g + v0 * t, r_t=v0.copy(), r_tt=np.zeros(3), A=A0, A_t=None, A_tt=None)
+    # constant derivatives given as arrays TOGETHER with a rotating basis: the stored arrays are handed out on every
+    # call (results of repeated evaluations must not accumulate in them)
+    M["const_rt_arrays_rotating"] = dict(r=lambda t: g + v0 * t, r_t=v0.copy(), r_tt=np.zeros(3), A=A, A_t=A_t, A_tt=A_tt)
     return M
 
 
